@@ -20,7 +20,7 @@ fn float_parts(want: &str, tier: Tier, out: &mut Vec<PartSpec>) {
         // C03/C05: inputs satisfying the preconditions dominate; C19/C20: the extended alphabet and all normalization variants
         let (nletters, norms, maxlen) = match want {
             "C03" | "C05" => (N_VALID_LETTERS, 2, if q { 3 } else if prec <= 12 { 4 } else { 3 }),
-            _ => (mfam::float_alphabet_f64().len(), 8, if q { 2 } else { 3 }),
+            _ => (mfam::float_alphabet_f64().len(), 8, if q && prec > 12 { 2 } else { 3 }),
         };
         let (_, total) = mfam::float_space(nletters, maxlen, norms);
         out.push(PartSpec { part: format!("float/{key}/{nletters}/{maxlen}/{norms}"), total, chunk: if prec <= 12 { 400 } else { 2000 },
